@@ -313,6 +313,14 @@ OP(gf_trace_map)
     auto r = G(a, 0)->gf_trace_map(*G(a, 1), *G(a, 2), *G(a, 3), small(a, 4, 100000));
     return Val::vec({mk(r.first), mk(r.second)});
 }
+OP(gf_trace_map_frob)
+{
+    // f._gf_trace_map(g, n, monomial base of f): g + g**p + ... + g**(p**(n-1)) mod f
+    // (the helper of gf_edf_shoup; contract of sympy's _gf_trace_map, which it ports)
+    auto f = G(a, 0), g = G(a, 1);
+    std::vector<GFD> b = f->gf_frobenius_monomial_base();
+    return mk(f->_gf_trace_map(*g, small(a, 2, 1000), b));
+}
 
 // ---- square-free / factorisation
 OP(gf_is_sqf)
